@@ -345,6 +345,11 @@ pub fn fromstr_texts(d: &Decl, dom: &[Val], tier: Tier) -> Vec<String> {
     ] {
         out.insert(s.to_string());
     }
+    // decimals a hair above the midpoint of two adjacent f32 / f64 values (a parse routed through a wider or narrower
+    // type rounds twice), and integers beyond 2^53 / 2^24
+    for s in ["1.00000005960464477539062500000000000000000001", "1.0000000596046447753906251", "16777217", "16777217.0000001", "1152921573326323713", "9007199254740993", "9007199254740993.0", "0.1000000014901161193847656250001", "1.00000000000000011102230246251565404236316680908203126", "-1.00000005960464477539062500000000000000000001"] {
+        out.insert(s.to_string());
+    }
     let _ = d;
     out.into_iter().collect()
 }
@@ -1424,12 +1429,12 @@ pub fn element_docs(d: &Decl, name: &'static str, vals: &[Val]) -> Vec<(String, 
 /// hand-written raw documents per format
 pub fn raw_docs(fmt: Fmt) -> Vec<Vec<u8>> {
     match fmt {
-        Fmt::Json => ["5", "05", "-0", "1e400", "1e2", "1.0", "255", "256", "-129", "\"\\u00df\"", "\"\\ud83e\\udd80\"", "\" a \"", "null", "[5]", "[[5]]", "{\"a\":5}", "5 ", " 5", "5,", "", "NaN", "\"5\"", "18446744073709551616", "340282366920938463463374607431768211456", "0.1", "1E-400", "[1,2]", "[]", "{\"x\":1,\"y\":2}", "{\"x\":1}", "{\"y\":2,\"x\":1}", "true"]
+        Fmt::Json => ["5", "05", "-0", "1e400", "1e2", "1.0", "255", "256", "-129", "\"\\u00df\"", "\"\\ud83e\\udd80\"", "\" a \"", "null", "[5]", "[[5]]", "{\"a\":5}", "5 ", " 5", "5,", "", "NaN", "\"5\"", "18446744073709551616", "340282366920938463463374607431768211456", "0.1", "1E-400", "[1,2]", "[]", "{\"x\":1,\"y\":2}", "{\"x\":1}", "{\"y\":2,\"x\":1}", "true", "1152921573326323713", "-1152921573326323713", "1.0000000596046447753906251", "16777217", "9007199254740993"]
             .iter()
             .map(|s| s.as_bytes().to_vec())
             .collect(),
         Fmt::RonNamed => vec![],
-        Fmt::Ron => ["5", "(5)", "X(5)", "Nt0(5)", "inf", "-inf", "NaN", "(NaN)", "(inf)", "(-inf)", "(1e400)", "(1.0)", "(\"a\")", "(\" A \")", "((5))", "(5,)", "()", "(5, 6)", "Some(5)", "(Some(5))", "[5]", "([1,2])", "((x:1,y:2))", "(Point(x:1,y:2))", "(-0.0)", "(0x10)", "(1_000)", "(256)", "(-1)", "('a')", "(true)", "(\"\\u{df}\")"]
+        Fmt::Ron => ["5", "(5)", "X(5)", "Nt0(5)", "inf", "-inf", "NaN", "(NaN)", "(inf)", "(-inf)", "(1e400)", "(1.0)", "(\"a\")", "(\" A \")", "((5))", "(5,)", "()", "(5, 6)", "Some(5)", "(Some(5))", "[5]", "([1,2])", "((x:1,y:2))", "(Point(x:1,y:2))", "(-0.0)", "(0x10)", "(1_000)", "(256)", "(-1)", "('a')", "(true)", "(\"\\u{df}\")", "(1152921573326323713)", "(1.0000000596046447753906251)", "(9007199254740993)"]
             .iter()
             .map(|s| s.as_bytes().to_vec())
             .collect(),
@@ -1441,6 +1446,9 @@ pub fn raw_docs(fmt: Fmt) -> Vec<Vec<u8>> {
                 vec![0xcd, 0x01, 0x00],
                 vec![0xce, 0, 1, 0, 0],
                 vec![0xcf, 0xff, 0xff, 0xff, 0xff, 0xff, 0xff, 0xff, 0xff],
+                // 2^60 + 2^36 + 1: just above the midpoint of two adjacent f32 values and not representable in f64
+                vec![0xcf, 0x10, 0x00, 0x00, 0x10, 0x00, 0x00, 0x00, 0x01],
+                vec![0xd3, 0xef, 0xff, 0xff, 0xef, 0xff, 0xff, 0xff, 0xff],
                 vec![0xd0, 0x80],
                 vec![0xd1, 0xff, 0x7f],
                 vec![0xd2, 0x80, 0, 0, 0],
